@@ -172,6 +172,10 @@ def gen_case(rng, params, index):
                 for rel, t in project["files"].items():
                     files[rel] = t
                 source = project["sources"][0]
+                if project.get("fancy") and rng.chance(0.6):
+                    # a component whose root type name is visible through several of its own imports (and documents using
+                    # it): which one it is may be unspecified, but it is the same one in every process
+                    source = rng.choice([project["fancy"]["source"]] + sorted(project["fancy"]["users"].values()))
                 text = None
             else:
                 source = "g/Wide.qml"
